@@ -39,6 +39,7 @@ def plan(tier, seed):
             units.append({'kind': 'sm2', 'weight': 2})
         units.append({'kind': 'pkcs8', 'weight': 3})
         units.append({'kind': 'import', 'weight': 3})
+        units.append({'kind': 'cms', 'weight': 4, 'flips': 6 if tier == 'quick' else 24})
         units.append({'kind': 'sm9', 'weight': 4})
         units.append({'kind': 'record', 'weight': 2})
     return units
@@ -445,6 +446,159 @@ def u_import(ctx, u):
     ctx.sample({'kind': 'import', 'cases': len(results), 'refused': sum(1 for v in results.values() if v != 1)})
 
 
+class _Signer(ctypes.Structure):
+    _fields_ = [('certs', ctypes.c_void_p), ('certs_len', ctypes.c_size_t), ('sign_key', ctypes.c_void_p)]
+
+
+def u_cms(ctx, u):
+    """CMS sign / envelop / open and X.509 certificate signing with known private keys and a known content-encryption
+    key, on success paths and on failures detected after the secret has been used (wrong recipient key, tampered
+    wrapped key, tampered ciphertext, tampered signature)."""
+    from ..ref import x509 as X
+    rng, lib, L = ctx.rng, ctx.lib, ctx.L
+    d_sig, d_rcp, d_other = (rng.randrange(1, R.N - 1) for _ in range(3))
+    pki = X.Pki('c19cms-%d' % rng.randrange(1 << 30), 0)
+    _, cert_sig = pki.leaf('signer', X.KU_DIGITAL_SIGNATURE, priv=d_sig)
+    _, cert_rcp = pki.leaf('rcpt', X.KU_KEY_ENCIPHERMENT, priv=d_rcp)
+    k_sig, _ = U.key_from_private(ctx, d_sig)
+    k_rcp, _ = U.key_from_private(ctx, d_rcp)
+    k_other, _ = U.key_from_private(ctx, d_other)
+    cek = rng.randbytes(16)
+    iv = rng.randbytes(16)
+    content = b'C19 content ' + rng.randbytes(24).hex().encode()
+    secrets = [('signer_private', R.i2b(d_sig)), ('signer_private_le', U.limbs(d_sig)), ('rcpt_private', R.i2b(d_rcp)),
+               ('rcpt_private_le', U.limbs(d_rcp)), ('content_key', cek), ('other_private', R.i2b(d_other))]
+    cs, cr = ctx.inbuf(cert_sig), ctx.inbuf(cert_rcp)
+    kb, ivb, cb = ctx.inbuf(cek), ctx.inbuf(iv), ctx.inbuf(content)
+    sg = _Signer(cs.ptr, len(cert_sig), k_sig.ptr)
+    made = {}
+
+    def produce(name, fn):
+        out = ctx.buf(8192, fill=0)
+        ol = ctypes.c_size_t(8192)
+        cap = Capture(ctx)
+        with cap:
+            ctx.begin(['cms', name])
+            r = fn(out, ol)
+            ctx.shim.vf_fflush_all()
+        judge(ctx, cap, secrets, 'cms:' + name, 'success' if r == 1 else 'failure')
+        made[name] = out.raw(ol.value) if r == 1 else None
+        ctx.check(r == 1, 'harness:cms-%s-failed' % name, ret=r)
+        out.free()
+
+    produce('sign', lambda out, ol: lib.cms_sign(out, ctypes.byref(ol), ctypes.byref(sg), 1, L['OID_cms_data'], cb, len(content), None, 0))
+    produce('envelop', lambda out, ol: lib.cms_envelop(out, ctypes.byref(ol), cr, len(cert_rcp), L['OID_sm4_cbc'], kb, 16, ivb, 16,
+                                                      L['OID_cms_data'], cb, len(content), None, 0, None, 0))
+    produce('sign_and_envelop', lambda out, ol: lib.cms_sign_and_envelop(out, ctypes.byref(ol), ctypes.byref(sg), 1, cr, len(cert_rcp),
+                                                                        L['OID_sm4_cbc'], kb, 16, ivb, 16, L['OID_cms_data'], cb, len(content),
+                                                                        None, 0, None, 0, None, 0))
+    produce('encrypt', lambda out, ol: lib.cms_encrypt(out, ctypes.byref(ol), L['OID_sm4_cbc'], kb, 16, ivb, 16, L['OID_cms_data'], cb,
+                                                      len(content), None, 0, None, 0))
+
+    def P():
+        return ctypes.byref(ctypes.c_void_p(0)), ctypes.byref(ctypes.c_size_t(0))
+
+    def open_env(data, key):
+        ib = ctx.inbuf(data)
+        out = ctx.buf(8192, fill=0)
+        ol = ctypes.c_size_t(8192)
+        ct = ctypes.c_int(0)
+        a, b, c = P(), P(), P()
+        r = lib.cms_deenvelop(ib, len(data), key, cr, len(cert_rcp), ctypes.byref(ct), out, ctypes.byref(ol), a[0], a[1], b[0], b[1], c[0], c[1])
+        got = out.raw(ol.value) if r == 1 and ol.value <= 8192 else None
+        ib.free()
+        out.free()
+        return r, got
+
+    def open_sae(data, key):
+        ib = ctx.inbuf(data)
+        out = ctx.buf(8192, fill=0)
+        ol = ctypes.c_size_t(8192)
+        ct = ctypes.c_int(0)
+        ps = [P() for _ in range(6)]
+        args = []
+        for a in ps:
+            args += [a[0], a[1]]
+        r = lib.cms_deenvelop_and_verify(ib, len(data), key, cr, len(cert_rcp), None, 0, None, 0, ctypes.byref(ct), out, ctypes.byref(ol), *args)
+        ib.free()
+        out.free()
+        return r, None
+
+    def open_sig(data):
+        ib = ctx.inbuf(data)
+        ct = ctypes.c_int(0)
+        ps = [P() for _ in range(4)]
+        args = []
+        for a in ps:
+            args += [a[0], a[1]]
+        r = lib.cms_verify(ib, len(data), None, 0, None, 0, ctypes.byref(ct), *args)
+        ib.free()
+        return r, None
+
+    def flips(data, count):
+        # single-bit flips spread over the second half (wrapped key, ciphertext, signature live there)
+        out = []
+        for _ in range(count):
+            i = rng.randrange(len(data) // 3, len(data))
+            m = bytearray(data)
+            m[i] ^= 1 << rng.randrange(8)
+            out.append(bytes(m))
+        return out
+
+    nflip = u.get('flips', 6)
+    cases = []
+    if made.get('envelop'):
+        cases.append(('deenvelop', 'success', lambda: open_env(made['envelop'], k_rcp)))
+        cases.append(('deenvelop', 'wrong-recipient-key', lambda: open_env(made['envelop'], k_other)))
+        for j, m in enumerate(flips(made['envelop'], nflip)):
+            cases.append(('deenvelop', 'bitflip', lambda m=m: open_env(m, k_rcp)))
+    if made.get('sign_and_envelop'):
+        cases.append(('deenvelop_and_verify', 'success', lambda: open_sae(made['sign_and_envelop'], k_rcp)))
+        cases.append(('deenvelop_and_verify', 'wrong-recipient-key', lambda: open_sae(made['sign_and_envelop'], k_other)))
+        for j, m in enumerate(flips(made['sign_and_envelop'], nflip)):
+            cases.append(('deenvelop_and_verify', 'bitflip', lambda m=m: open_sae(m, k_rcp)))
+    if made.get('sign'):
+        cases.append(('verify', 'success', lambda: open_sig(made['sign'])))
+        for j, m in enumerate(flips(made['sign'], nflip)):
+            cases.append(('verify', 'bitflip', lambda m=m: open_sig(m)))
+    outcome = {}
+    for op, path, fn in cases:
+        cap = Capture(ctx)
+        with cap:
+            ctx.begin(['cms', op, path])
+            r, got = fn()
+            ctx.shim.vf_fflush_all()
+        judge(ctx, cap, secrets + ([('content', content)] if op != 'verify' else []), 'cms:' + op, path)
+        outcome.setdefault((op, path), []).append(r)
+        ctx.stat('cms_open_' + ('ok' if r == 1 else 'refused'))
+    for op in ('deenvelop', 'deenvelop_and_verify', 'verify'):
+        if (op, 'success') in outcome:
+            ctx.check(outcome[(op, 'success')] == [1], 'harness:cms-%s-honest-failed' % op, ret=outcome[(op, 'success')])
+    for op in ('deenvelop', 'deenvelop_and_verify'):
+        if (op, 'wrong-recipient-key') in outcome:
+            ctx.check(outcome[(op, 'wrong-recipient-key')] != [1], 'harness:cms-%s-wrong-key-accepted' % op)
+    # X.509 certificate signing with the signer key
+    nm = X.name('c19 subject')
+    nm = nm[2:] if nm[1] < 0x80 else nm[3:]
+    nb = ctx.inbuf(nm)
+    serial = ctx.inbuf(rng.randbytes(8))
+    out = ctx.buf(2048, fill=0)
+    p = ctypes.c_void_p(out.ptr)
+    ol = ctypes.c_size_t(0)
+    now = int(__import__('time').time())
+    cap = Capture(ctx)
+    with cap:
+        ctx.begin(['x509', 'cert-sign'])
+        r = lib.x509_cert_sign_to_der(L['X509_version_v3'], serial, 8, L['OID_sm2sign_with_sm3'], nb, len(nm), now, now + 86400 * 30,
+                                      nb, len(nm), k_rcp, None, 0, None, 0, None, 0, k_sig, R.DEFAULT_ID, 16, ctypes.byref(p), ctypes.byref(ol))
+        ctx.shim.vf_fflush_all()
+    ctx.check(r == 1, 'harness:x509-cert-sign-failed', ret=r)
+    judge(ctx, cap, secrets, 'x509:cert-sign', 'success')
+    for b in (nb, serial, out, cs, cr, kb, ivb, cb, k_sig, k_rcp, k_other):
+        b.free()
+    ctx.sample({'kind': 'cms', 'cases': len(cases), 'refused': sum(1 for v in outcome.values() for r in v if r != 1)})
+
+
 def u_sm9(ctx, u):
     rng, lib, L = ctx.rng, ctx.lib, ctx.L
     cap = Capture(ctx)
@@ -517,5 +671,5 @@ def u_record(ctx, u):
 
 
 def run_unit(ctx, u):
-    {'handshake': u_handshake, 'handshake-fail': u_handshake_fail, 'sm2': u_sm2, 'pkcs8': u_pkcs8, 'import': u_import, 'sm9': u_sm9,
+    {'handshake': u_handshake, 'handshake-fail': u_handshake_fail, 'sm2': u_sm2, 'pkcs8': u_pkcs8, 'import': u_import, 'cms': u_cms, 'sm9': u_sm9,
      'record': u_record}[u['kind']](ctx, u)
